@@ -36,10 +36,15 @@ C0 == [enq |-> <<>>,            \* accepted messages, enqueue order: [key, kind]
 
 Max(a, b) == IF a > b THEN a ELSE b
 
-\* close messages are consumed without a call into the synchronous writer: skip them
-RECURSIVE NextIdx(_, _)
-NextIdx(enq, k) == IF k + 1 > Len(enq) THEN 0
-                   ELSE IF enq[k + 1].kind = "C" THEN NextIdx(enq, k + 1) ELSE k + 1
+\* Close messages are consumed without a call into the synchronous writer, and a flush message need not lead to
+\* a sync of its own (whether a flush may report success is judged at its return): NextIdx(enq, k, skip) is the
+\* first entry after k whose kind is not in skip, 0 if there is none.
+RECURSIVE NextIdx(_, _, _)
+NextIdx(enq, k, skip) == IF k + 1 > Len(enq) THEN 0
+                         ELSE IF enq[k + 1].kind \in skip THEN NextIdx(enq, k + 1, skip) ELSE k + 1
+NextData(enq, k) == NextIdx(enq, k, {"C", "L"})
+\* the flush message a sync belongs to: the next flush entry, provided no data message before it is unapplied
+NextSync(enq, k) == LET j == NextIdx(enq, k, {"C"}) IN IF j # 0 /\ enq[j].kind = "L" THEN j ELSE 0
 
 Keys(enq, a, b) == { enq[i].key : i \in a..b }
 
@@ -61,14 +66,14 @@ Verdict(C, ev) ==
             IF ev.P # ev.t THEN "definition applied without holding the process lock" ELSE ""
         ELSE IF ev.kind = "C" THEN
             IF C.wrclosed THEN "file closed twice"
-            ELSE IF NextIdx(C.enq, C.nap) # 0 THEN "file closed before every accepted message was applied"
+            ELSE IF NextData(C.enq, C.nap) # 0 THEN "file closed before every accepted message was applied"
             ELSE IF 1 \notin C.exited THEN "file closed while the writer thread was still running"
             ELSE ""
         ELSE IF C.wrclosed THEN "message applied after the file was closed"
         ELSE IF ev.P # ev.t THEN "file state written without holding the process lock"
-        ELSE LET k == NextIdx(C.enq, C.nap) IN
+        ELSE LET k == NextData(C.enq, C.nap) IN
             IF ev.kind = "L" THEN
-                IF k = 0 \/ C.enq[k].kind # "L" THEN "sync applied out of order" ELSE ""
+                IF NextSync(C.enq, C.nap) = 0 THEN "sync applied out of order" ELSE ""
             ELSE IF k # 0 /\ C.enq[k].key = ev.key THEN
                 (IF ev.same THEN "" ELSE "applied message bytes differ from what the producer supplied")
             ELSE IF ev.key \in Keys(C.enq, 1, C.nap) THEN "accepted message applied twice"
@@ -109,9 +114,8 @@ Update(C, ev) ==
     ELSE IF ev.e = "Apply" THEN
         IF ev.kind = "S" THEN C
         ELSE IF ev.kind = "C" THEN [C EXCEPT !.wrclosed = TRUE]
-        ELSE LET k == NextIdx(C.enq, C.nap) IN
-             IF ev.kind = "L" THEN [C EXCEPT !.nap = k, !.synced = k]
-             ELSE [C EXCEPT !.nap = k]
+        ELSE IF ev.kind = "L" THEN LET j == NextSync(C.enq, C.nap) IN [C EXCEPT !.nap = j, !.synced = j]
+        ELSE [C EXCEPT !.nap = NextData(C.enq, C.nap)]
     ELSE IF ev.e = "Ret" THEN
         [C EXCEPT !.call[ev.t] = NoCall,
                   !.maxret = IF ev.rc = 0 THEN Max(@, C.call[ev.t].enqidx) ELSE @]
